@@ -19,6 +19,8 @@ def fold(rep, res, prefix):
 
 
 def run(rep, tier):
+    from .. import scale
+    scale.run(rep, PROP, tier)          # size ladders (seedverif/scale.py): the entries that concern this property
     rng = core.rng_for(PROP)
     nshards = 160 if tier == "quick" else 2000
     jobs = [(rng.randrange(1 << 40), 10, 3 if tier == "quick" else 6, "C09") for _ in range(nshards)]
